@@ -51,16 +51,18 @@ STRATS = {
 JOIN_STRATS = ("bN", "bN-tasks")  # DataFrame.join has no broadcast argument
 
 MERGE_VARIANTS = {
-    "quick": ("int_on", "nan_lr", "two_on", "idx_idx", "idx_unsorted", "col_idx", "mixed", "join_on"),
+    "quick": ("mixed", "nan_lr", "two_on", "idx_idx", "col_idx", "join_on"),
     "thorough": (
         "int_on", "nan_lr", "two_on", "idx_idx", "idx_unsorted", "col_idx", "idx_col", "mixed", "join_idx", "join_on",
         "str_none", "nullable", "dt", "idxname_on", "npart3", "cat",
     ),
 }
-MERGE_STRATS = {"quick": ("bT", "bF-tasks", "bN"), "thorough": ("bT", "bF-tasks", "bF-disk", "bN", "b0.9")}
+MERGE_STRATS = {"quick": ("bT", "bF-tasks"), "thorough": ("bT", "bF-tasks", "bN", "b0.9")}
+# quick: dask's own choice (hash join through the default disk shuffle) only for this scenario -- the disk shuffle itself is C40's subject
+QUICK_DEFAULT_STRAT_VARIANTS = ("mixed",)
 ASOF_VARIANTS = {"quick": ("on", "index"), "thorough": ("on", "index", "by", "lon_rindex")}
 CONCAT_VARIANTS = {
-    "quick": ("same", "cols", "dtype", "series"),
+    "quick": ("cols", "dtype", "series"),
     "thorough": ("same", "cols", "dtype", "series", "three", "str"),
 }
 
@@ -78,7 +80,8 @@ def RULE(tier):
         f"{pl} x {pr} pairs; known divisions whenever the index is sorted and the cuts are truthful, else unknown). "
         f"merge/join: key scenarios {MERGE_VARIANTS[tier]} (duplicate / unmatched / NaN / None / NA keys, int-vs-float keys, two-column keys, "
         "left_on/right_on, index-index, column-index, index level named in on=, DataFrame.join with on= and suffixes, overlapping "
-        f"non-key columns, indicator) x how in {HOWS} x strategy in {MERGE_STRATS[tier]} (broadcast True/False/None/0.9, shuffle tasks/disk). "
+        f"non-key columns, indicator) x how in {HOWS} x strategy in {MERGE_STRATS[tier]} (broadcast True/False/None/0.9, shuffle tasks/disk"
+        f"{'; the default disk-shuffle hash join only for ' + str(QUICK_DEFAULT_STRAT_VARIANTS) if tier == 'quick' else ''}; join: {JOIN_STRATS}). "
         f"merge_asof: {ASOF_VARIANTS[tier]} x direction x allow_exact_matches x tolerance in (None, 2). "
         f"concat: {CONCAT_VARIANTS[tier]} x axis 0/1 x join inner/outer x interleave_partitions x index layouts "
         "(disjoint ordered, overlapping, unsorted). Oracle: rows (values, dtypes, columns) equal pandas on the whole frames. "
@@ -141,8 +144,8 @@ def merge_pair(variant, seed):
         R = pd.DataFrame({"k": rk, "w": w})
         kw = {"left_index": True, "right_on": "k"}
     elif variant == "mixed":
-        L = pd.DataFrame({"k": np.array(ik, dtype="int64"), "v": v})
-        R = pd.DataFrame({"k": np.array([2.0, 2.0, 3.0, 4.5]), "w": w})
+        L = pd.DataFrame({"k": np.array(ik, dtype="int64"), "v": v, "x": xl})
+        R = pd.DataFrame({"k": np.array([2.0, 2.0, 3.0, 4.5]), "w": w, "x": xr})
         kw = {"on": "k"}
     elif variant == "str_none":
         L = pd.DataFrame({"k": pd.Series(["a", None, "b", "b", None], dtype=object), "v": v})
@@ -237,7 +240,12 @@ def shards(tier):
         for how in HOWS:
             if how == "leftsemi" and var in NO_SEMI:
                 continue
-            for st in JOIN_STRATS if var.startswith("join") else MERGE_STRATS[tier]:
+            strats = JOIN_STRATS if var.startswith("join") else MERGE_STRATS[tier]
+            if tier == "quick" and var in QUICK_DEFAULT_STRAT_VARIANTS:
+                strats = strats + ("bN",)
+            for st in strats:
+                if how == "outer" and STRATS[st][0] not in (None, False):
+                    continue  # an outer join is never a broadcast join: same plan as broadcast=False
                 out.append(("merge", var, how, st))
     for var in ASOF_VARIANTS[tier]:
         for direction in ("backward", "forward", "nearest"):
@@ -311,14 +319,53 @@ def merge_reference(L, R, kw, how):
 
 
 # ------------------------------------------------------------------------------------------------ known findings
-def known_class(case):
-    """narrow input classes of recorded findings; appended to the finding key"""
-    if case[0] == "merge":
+def _broadcast_side(case):
+    """None, or the side ('left'/'right') dask broadcasts for this merge case -- restated from the documented rules:
+    broadcast joins exist for inner/left/right/leftsemi when `broadcast` is True (or a bias b with n_small < log2(n_big)*b;
+    default bias 0.5), never for the side that `how` must preserve, never when one side has a single partition that can
+    simply be merged into every partition of the other, never when both sides join on an index with known divisions."""
+    _, var, how, st, lp, rp = case
+    nl, nr = len(lp), len(rp)
+    if how == "outer":
+        return None
+    if max(nl, nr) == 1 or (nl == 1 and how in ("right", "inner")) or (nr == 1 and how in ("left", "inner", "leftsemi")):
+        return None
+    L, R, kw, _ = merge_pair(var, 0)
+    li = kw.get("left_index", False) or (kw.get("join", False) and "on" not in kw)
+    ri = kw.get("right_index", False) or kw.get("join", False)
+    if li and ri and dfh.divisions_for(L, lp) is not None and dfh.divisions_for(R, rp) is not None:
+        return None
+    side = "left" if nl < nr else "right"
+    if how == side:
+        return None
+    b = STRATS[st][0]
+    if b is False:
+        return None
+    bias = 0.5 if b is None or b is True else b
+    if b is True or min(nl, nr) < math.log2(max(nl, nr)) * bias:
+        return side
+    return None
+
+
+def known_class(case, failure):
+    """narrow input classes of recorded findings (C39.findings.json); appended to the finding key"""
+    kind = case[0]
+    if kind == "merge":
         _, var, how, st, lp, rp = case
-        if how == "leftsemi" and len(lp) < len(rp):
-            b = STRATS[st][0]
-            if b is True or (isinstance(b, float) and len(lp) < math.log2(len(rp)) * b) or (b is None and len(lp) < math.log2(len(rp)) * 0.5):
-                return "leftsemi-broadcast-left"
+        kw = merge_pair(var, 0)[2]
+        li = kw.get("left_index", False)
+        ri = kw.get("right_index", False) or kw.get("join", False)
+        if failure == "dask-raises:TypeError" and how == "leftsemi" and li and not ri:
+            return "leftsemi-left-index"
+        side = _broadcast_side(case)
+        if failure == "wrong-rows" and how == "leftsemi" and side == "left":
+            return "leftsemi-broadcast-left"
+        if failure == "dask-raises:ValueError" and how in ("left", "right") and ((side == "left" and ri) or (side == "right" and li)):
+            return "broadcast-other-side-on-index"
+    if kind == "asof":
+        lp, rp = case[-2], case[-1]
+        if failure in ("wrong-rows", "dask-raises:AssertionError", "dask-raises:ValueError") and (0 in lp or 0 in rp) and case[1] != "index":
+            return "empty-partition"
     return None
 
 
@@ -349,7 +396,7 @@ def run_case(case, ctx):
         if how == "leftsemi":
             kw.pop("indicator", None)
         bc, method = STRATS[st]
-        op = f"merge-{var}"
+        op, detail_op = "merge", var
 
         def f_pd():
             return merge_reference(L, R, kw, how)
@@ -358,16 +405,13 @@ def run_case(case, ctx):
             l, r = dfh.build(L, lp), dfh.build(R, rp)
             k = dict(kw)
             if k.pop("join", False):
-                if bc is not None:
-                    # DataFrame.join has no broadcast argument: only dask's own choice is reachable
-                    return None
                 return l.join(r, how=how, shuffle_method=method, **k)
             return dd.merge(l, r, how=how, broadcast=bc, shuffle_method=method, **k)
 
     elif kind == "asof":
         _, var, direction, exact, tol, lp, rp = case
         L, R, kw = asof_pair(var, ctx.seed)
-        op = f"asof-{var}"
+        op, detail_op = "asof", var
         ordered = True
         check_index = var != "on" and var != "by"
         kw = dict(kw, direction=direction, allow_exact_matches=exact, tolerance=tol)
@@ -381,7 +425,7 @@ def run_case(case, ctx):
     elif kind == "concat":
         _, var, layout, axis, join, inter, lp, rp = case
         frames = concat_frames(var, layout, ctx.seed)
-        op = f"concat{axis}-{var}"
+        op, detail_op = f"concat{axis}", var
         # order: axis=0 stacks the inputs' partitions in order unless dask interleaves them by divisions; axis=1 aligns
         # on the index, whose order is the (sorted) divisions' in dask and order of appearance in pandas
         ordered = axis == 0 and not inter
@@ -401,13 +445,8 @@ def run_case(case, ctx):
         want, p_exc = f_pd(), None
     except Exception as e:  # noqa: BLE001
         want, p_exc = None, e
-    sub = known_class(case)
-    suffix = f":{sub}" if sub else ""
     try:
         lazy = f_dd()
-        if lazy is None:
-            ctx.count("out_of_scope")
-            return
         got, d_exc = lazy.compute(), None
     except Hang:
         raise
@@ -423,26 +462,62 @@ def run_case(case, ctx):
         if r:
             ctx.count(r)
             return
-        ctx.violation(f"{op}:dask-raises:{type(d_exc).__name__}{suffix}", case, f"dask raised {d_exc!r}; pandas gives\n{want!r}")
+        _report(ctx, case, op, detail_op, f"dask-raises:{type(d_exc).__name__}", f"dask raised {d_exc!r}; pandas gives\n{want!r}")
         return
+    got, want = _plain_index(got), _plain_index(want)
     why = dfh.equal(got, want, ordered=ordered, check_index=check_index)
     if why:
-        # classify: same multiset of values but different dtypes / index vs different rows
+        # classify: same multiset of values but different dtypes / order vs different rows
         loose = dfh.equal(got, want, ordered=False, check_dtype=False, check_index=check_index, check_names=False)
         if loose is None:
             strict_unordered = dfh.equal(got, want, ordered=False, check_index=check_index)
             cls = "wrong-order" if strict_unordered is None else "wrong-dtype"
         else:
             cls = "wrong-rows"
-        ctx.violation(f"{op}:{cls}{suffix}", case, f"{why}\n got:\n{got!r}\n want:\n{want!r}")
+        _report(ctx, case, op, detail_op, cls, f"{why}\n got:\n{got!r}\n want:\n{want!r}")
+
+
+def _plain_index(obj):
+    """RangeIndex and Index[int64] with the same labels are the same index: compare labels and dtype, not the class"""
+    if isinstance(obj, (pd.DataFrame, pd.Series)) and isinstance(obj.index, pd.RangeIndex):
+        obj = obj.copy()
+        obj.index = pd.Index(np.asarray(obj.index), name=obj.index.name)
+    return obj
+
+
+def _report(ctx, case, op, variant, failure, detail):
+    """recorded defects get ONE key per defect ("<op>:<failure>:<input class>") whatever the key scenario; anything else
+    keeps the scenario in the key so that unrelated failures are reported separately"""
+    sub = known_class(case, failure)
+    key = f"{op}:{failure}:{sub}" if sub else f"{op}-{variant}:{failure}"
+    ctx.violation(key, case, detail)
+
+
+def _with_tmpdir(fn):
+    """the disk shuffle spills to <temporary_directory>/*.partd and only cleans up at interpreter exit: give it a
+    private directory and remove it"""
+    import shutil
+    import tempfile
+
+    import dask
+
+    tmp = tempfile.mkdtemp(prefix="mc-c39-")
+    try:
+        with dask.config.set(temporary_directory=tmp):
+            return fn()
+    finally:
+        shutil.rmtree(tmp, ignore_errors=True)
 
 
 def run_shard(shard, ctx):
-    for case in cases_of(shard, ctx.tier):
-        if ctx.out_of_time():
-            return
-        ctx.guard(case, run_case, case, ctx)
+    def body():
+        for case in cases_of(shard, ctx.tier):
+            if ctx.out_of_time():
+                return
+            ctx.guard(case, run_case, case, ctx)
+
+    _with_tmpdir(body)
 
 
 def replay(case, ctx):
-    run_case(case, ctx)
+    _with_tmpdir(lambda: run_case(case, ctx))
